@@ -5,6 +5,7 @@ Model: task slabs of commands and of the executor, the bridge registry (M.Slab),
 import CruxVerif.Lemmas.Bridge
 import CruxVerif.Lemmas.RtTask
 import CruxVerif.Lemmas.Resolve
+import CruxVerif.Lemmas.Occ
 namespace Props.C13
 open M M.Rt M.Bridge M.Slab
 
@@ -90,5 +91,48 @@ theorem finished_stream_entry_stays (reg : Slab Resolve) (id l : Nat) (v : Val) 
 def tasks_released_goal : Prop :=
   ∀ (k k' : Core) (effs : List Eff), process k = some (effs, k') →
     k'.execTasks.len ≤ (k'.w.leaves.filter fun l => l.senderAlive && l.receiverAlive).length + k'.w.cmds.length
+
+/-- **ONCE A COMMAND IS DONE OR DROPPED NOTHING OF IT REMAINS IN ITS HOST — over whole runs** (`…_flat`: apps whose `update`
+    returns commands without combinators, plus host-free legacy tasks). After EVERY history of events, resolutions, drops,
+    aborts and probes, when any further call into the Core has returned, every executor task that hosts a command hosts a
+    command that is LIVE (never a dropped one) and NOT DONE (it still has a task or an output), and no command is hosted
+    twice: the executor's occupancy by commands is the number of commands with outstanding work, whatever the length of the
+    history. Invariants `QI` (scheduling: a hosted command that is not about to be polled is not done — the spawner removes
+    its task in the very poll in which the command finishes) and `OC` (Lemmas/Occ.lean: hosted ⇒ live, hosted at most once,
+    spawn-queue entries distinct, live and unhosted). -/
+theorem finished_commands_leave_the_executor_flat (prog : M.Hosts.Prog) (hp : progFlat prog) (canon : Bool)
+    (acts : List M.Hosts.Action) (os : List M.Hosts.Obs) (h : M.Hosts.CoreHost)
+    (hr : M.Hosts.runCore prog canon acts = some (os, h)) (a : M.Hosts.Action) (o : M.Hosts.Obs) (h' : M.Hosts.CoreHost)
+    (hs : h.step a = some (o, h')) (e c : Nat) (hh : h'.k.execTasks.get? e = some (.cmd c)) :
+    (h'.k.w.cmd c).alive = true ∧ h'.k.w.isDoneNow c = false ∧
+      ∀ e', h'.k.execTasks.get? e' = some (.cmd c) → e' = e := by
+  have qo := M.Hosts.runCore_inv M.Hosts.QO_ops prog (M.Hosts.QO_init prog hp) canon acts os h hr
+  have qo' := M.Hosts.CoreHost.step_inv M.Hosts.QO_ops h a o h' hs qo
+  have quiet := M.Hosts.CoreHost.step_q h a o h' hs qo.1
+  have hal := qo'.2.nd e c hh
+  refine ⟨hal, ?_, fun e' he' => qo'.2.uq e' e c he' hh⟩
+  have q := qo'.1.allQ c (qo'.1.host e c hh) hal
+  rcases q.d with s | d
+  · rcases s with ⟨e1, _, hr1⟩ | s
+    · rw [quiet.2.2] at hr1; cases hr1
+    · rw [quiet.2.1] at s; cases s
+  · exact d
+
+/-- the same in every state the serialized Bridge reaches in which the executor's queues are empty (every state in which a
+    call that ran the Core has just returned) -/
+theorem finished_commands_leave_the_executor_bridge_flat (prog : M.Hosts.Prog) (hp : progFlat prog) (canon : Bool)
+    (acts : List M.Hosts.Action) (os : List M.Hosts.Obs) (h : M.Hosts.BridgeHost)
+    (hr : M.Hosts.runBridge prog canon acts = some (os, h)) (e1 : h.b.core.w.execSpawn = []) (e2 : h.b.core.w.execReady = [])
+    (e c : Nat) (hh : h.b.core.execTasks.get? e = some (.cmd c)) :
+    (h.b.core.w.cmd c).alive = true ∧ h.b.core.w.isDoneNow c = false := by
+  have qo := M.Hosts.runBridge_inv M.Hosts.QO_ops prog (M.Hosts.QO_init prog hp) canon acts os h hr
+  have hal := qo.2.nd e c hh
+  refine ⟨hal, ?_⟩
+  have q := qo.1.allQ c (qo.1.host e c hh) hal
+  rcases q.d with s | d
+  · rcases s with ⟨e', _, hr1⟩ | s
+    · rw [e2] at hr1; cases hr1
+    · rw [e1] at s; cases s
+  · exact d
 
 end Props.C13
